@@ -233,15 +233,19 @@ def c_overflow(hid, build, state, room, timeout_ms=60000):
     out = env.call('@sercomm_drv_rx_char', [ch])
     j.witness(ex, [])
     j.memory_obligations(ex, [])
+    if out is None:
+        j.must_hold(ex, 'returns', [], False)          # every path ended in a flagged access / abort
+        return j.stats
     st_after = env.get('g:@sercomm', L.rxstate, 4)
     newm = env.get('g:@sercomm', L.rxmsg, 8, True)
-    if room == 0:
+    reachable = state in ('DATA', 'ESCAPE')        # the buffer only fills while payload is being received
+    if room == 0 and reachable:
         j.must_hold(ex, 'full:rc=0', [], out.ret.e == 0)
         j.must_hold(ex, 'full:state=WAIT_START', [], st_after.e == ST['WAIT_START'])
         j.must_hold(ex, 'full:old-buffer-freed', [], ex.dead.get(rxm.obj, False) if ex.dead.get(rxm.obj) is not None else z3.BoolVal(False))
         j.must_hold(ex, 'full:fresh-buffer', [], z3.BoolVal(isinstance(newm, Ptr) and newm.obj is not None and newm.obj != rxm.obj))
         j.must_hold(ex, 'full:nothing-delivered', [], z3.BoolVal(not env.delivered))
-    else:
+    elif room == 1:
         j.must_hold(ex, 'room1:rc=1', [], out.ret.e == 1)
     j.stats.extra['ir_steps'] = ex.steps
     return j.stats
@@ -396,6 +400,24 @@ def replay(body):
         wire = [int(x) for x in re.findall(r'w(\d+)', out)] if rc == 0 else []
         ok = ok and all(x not in (FLAG, 0) for x in wire[1:-1])
         return (0, 'native agrees: wire %s' % wire) if ok else (1, 'REPRODUCED on native build: payload octet %d -> wire %s, delivered %s' % (b, wire, got))
+    if fn == 'c_overflow':
+        size = 2048 if sh['build'] == 'host' else 256
+        if sh['build'] != 'host': return 0, 'firmware-size variant has no native build (inline ARM assembly); see the host-size twin'
+        ch = i.get('ch', 0); st = sh['state']
+        sc = ['reg', 5, 'rx', FLAG, 'rx', 5, 'rx', 3]
+        if st in ('DATA', 'ESCAPE'):
+            for k in range(size - sh['room']): sc += ['rx', 65]
+            if st == 'ESCAPE': sc += ['rx', ESC]
+        else:
+            return 0, 'pre-state not reachable through the public interface'
+        sc += ['rx', ch, 'rx', FLAG, 'rx', FLAG, 'rx', 5, 'rx', 3, 'rx', 66, 'rx', FLAG, 'rx', FLAG, 'rx', 5, 'rx', 3, 'rx', 67, 'rx', FLAG]
+        rc, out = native(sc)
+        if rc != 0: return 1, 'REPRODUCED on native build (ASan/UBSan): over-long frame, state %s, octet %d: %s' % (st, ch, out[-500:])
+        got = re.findall(r'RX (\d+) (\d+)', out)
+        big = [g for g in got if int(g[1]) >= size]
+        if big: return 1, 'REPRODUCED on native build: an over-long frame of %s octets was delivered' % big[0][1]
+        if not any(g == ('5', '1') for g in got): return 1, 'REPRODUCED on native build: reception did not resynchronise: %s' % got
+        return 0, 'native build discards the frame and resynchronises: %s' % got
     return 0, 'no native replay for %s' % fn
 
 
